@@ -37,6 +37,146 @@ func fatal(format string, args ...interface{}) {
 	os.Exit(2)
 }
 
+var globals = flag.Bool("globals", false, "generate VerifResetGlobals for the package-level variables")
+
+func resetFuncName(file string) string {
+	return "verifReset_" + strings.NewReplacer(".", "_", "-", "_").Replace(file)
+}
+
+// globalResets returns, per file, the source of a function that re-initialises the file's
+// package-level variables, leaving out every variable that is reachable (by name, through the
+// package's functions) from an init function or from the initialiser of a variable.
+func globalResets(dir string, ents []os.DirEntry) (map[string]string, string, error) {
+	fset := token.NewFileSet()
+	type fileInfo struct {
+		name string
+		src  []byte
+		f    *ast.File
+	}
+	var files []fileInfo
+	pkg := ""
+	for _, e := range ents {
+		name := e.Name()
+		if e.IsDir() || !strings.HasSuffix(name, ".go") || strings.HasSuffix(name, "_test.go") {
+			continue
+		}
+		src, err := os.ReadFile(filepath.Join(dir, name))
+		if err != nil {
+			return nil, "", err
+		}
+		if bytes.Contains(src, []byte("//verif:noinstrument")) {
+			continue
+		}
+		f, err := parser.ParseFile(fset, name, src, 0)
+		if err != nil {
+			return nil, "", err
+		}
+		pkg = f.Name.Name
+		files = append(files, fileInfo{name, src, f})
+	}
+	idents := func(n ast.Node) map[string]bool {
+		out := map[string]bool{}
+		ast.Inspect(n, func(x ast.Node) bool {
+			if id, ok := x.(*ast.Ident); ok {
+				out[id.Name] = true
+			}
+			return true
+		})
+		return out
+	}
+	funcRefs := map[string]map[string]bool{}
+	reach := map[string]bool{}
+	var work []string
+	add := func(m map[string]bool) {
+		for k := range m {
+			if !reach[k] {
+				reach[k] = true
+				work = append(work, k)
+			}
+		}
+	}
+	for _, fi := range files {
+		for _, d := range fi.f.Decls {
+			switch x := d.(type) {
+			case *ast.FuncDecl:
+				if x.Body == nil {
+					continue
+				}
+				ids := idents(x.Body)
+				if x.Name.Name == "init" && x.Recv == nil {
+					add(ids)
+					continue
+				}
+				if funcRefs[x.Name.Name] == nil {
+					funcRefs[x.Name.Name] = map[string]bool{}
+				}
+				for k := range ids {
+					funcRefs[x.Name.Name][k] = true
+				}
+			case *ast.GenDecl:
+				if x.Tok != token.VAR {
+					continue
+				}
+				for _, sp := range x.Specs {
+					for _, v := range sp.(*ast.ValueSpec).Values {
+						add(idents(v))
+					}
+				}
+			}
+		}
+	}
+	for len(work) > 0 {
+		k := work[len(work)-1]
+		work = work[:len(work)-1]
+		if refs, ok := funcRefs[k]; ok {
+			add(refs)
+		}
+	}
+	out := map[string]string{}
+	text := func(fi fileInfo, n ast.Node) string {
+		return string(fi.src[fset.Position(n.Pos()).Offset:fset.Position(n.End()).Offset])
+	}
+	for _, fi := range files {
+		var lines []string
+		for _, d := range fi.f.Decls {
+			g, ok := d.(*ast.GenDecl)
+			if !ok || g.Tok != token.VAR {
+				continue
+			}
+			for _, sp := range g.Specs {
+				vs := sp.(*ast.ValueSpec)
+				skip := false
+				var names []string
+				for _, n := range vs.Names {
+					if n.Name == "_" || reach[n.Name] {
+						skip = true
+					}
+					names = append(names, n.Name)
+				}
+				if skip {
+					continue
+				}
+				switch {
+				case len(vs.Values) == 0 && vs.Type != nil:
+					for _, n := range names {
+						lines = append(lines, fmt.Sprintf("\t%s = *new(%s)", n, text(fi, vs.Type)))
+					}
+				case len(vs.Values) == len(names):
+					for i, n := range names {
+						lines = append(lines, fmt.Sprintf("\t%s = %s", n, text(fi, vs.Values[i])))
+					}
+				case len(vs.Values) == 1:
+					lines = append(lines, fmt.Sprintf("\t%s = %s", strings.Join(names, ", "), text(fi, vs.Values[0])))
+				}
+			}
+		}
+		if len(lines) > 0 {
+			out[fi.name] = "func " + resetFuncName(fi.name) + "() {\n" + strings.Join(lines, "\n") + "\n}\n"
+		}
+	}
+	return out, pkg, nil
+}
+
 func main() {
 	flag.Parse()
 	if flag.NArg() != 1 {
@@ -54,6 +194,15 @@ func main() {
 		}
 	}
 	var sites []string
+	resets := map[string]string{} // file -> reset function appended to it
+	pkgName := ""
+	if *globals {
+		var err error
+		resets, pkgName, err = globalResets(dir, ents)
+		if err != nil {
+			fatal("globals: %v", err)
+		}
+	}
 	for _, e := range ents {
 		name := e.Name()
 		if e.IsDir() || !strings.HasSuffix(name, ".go") || strings.HasSuffix(name, "_test.go") {
@@ -67,12 +216,36 @@ func main() {
 		if bytes.Contains(src, []byte("//verif:noinstrument")) {
 			continue
 		}
+		if fn := resets[name]; fn != "" {
+			src = append(src, []byte("\n"+fn)...)
+		}
 		out, fsites, err := instrumentFile(name, src, denseSet[name])
 		if err != nil {
 			fatal("%s: %v", name, err)
 		}
 		sites = append(sites, fsites...)
 		if err := os.WriteFile(path, out, 0o644); err != nil {
+			fatal("%v", err)
+		}
+	}
+	if *globals {
+		var names []string
+		for f := range resets {
+			names = append(names, f)
+		}
+		sort.Strings(names)
+		var sb strings.Builder
+		sb.WriteString("//verif:noinstrument\n\npackage " + pkgName + "\n\n")
+		sb.WriteString("// VerifResetGlobals gives every package-level variable that no init function (and no\n")
+		sb.WriteString("// initialiser of another variable) can reach its initial value again. The simulator calls\n")
+		sb.WriteString("// it at the start of every run: state kept in package-level variables would otherwise\n")
+		sb.WriteString("// carry over from one run to the next inside a worker process.\n")
+		sb.WriteString("func VerifResetGlobals() {\n")
+		for _, f := range names {
+			sb.WriteString("\t" + resetFuncName(f) + "()\n")
+		}
+		sb.WriteString("}\n")
+		if err := os.WriteFile(filepath.Join(dir, "verif_globals.go"), []byte(sb.String()), 0o644); err != nil {
 			fatal("%v", err)
 		}
 	}
